@@ -598,6 +598,13 @@ Section Proc.
 
 End Proc.
 
+Lemma bytes_eqb_eq : forall a b, bytes_eqb a b = true <-> a = b.
+Proof.
+  induction a as [|x a IH]; destruct b as [|y b]; simpl; split; intros H; try discriminate; auto.
+  - apply andb_prop in H; destruct H as [H1 H2]. apply Z.eqb_eq in H1; apply IH in H2; subst; auto.
+  - inversion H; subst. rewrite Z.eqb_refl. simpl. apply IH; auto.
+Qed.
+
 (* ---------- rejections lifted to the process step; retry after abort / timeout / failure ---------- *)
 Section Proc2.
   Variable joiner_ok : bytes -> participant -> bool.
@@ -651,6 +658,73 @@ Section Proc2.
     destruct (do_proposing_rejects now true (effective B s) _ H) as [e ->]. reflexivity.
   Qed.
 
+  (* ---- what a well-formed next-epoch proposal is, and that a node whose base state is a completed
+     epoch accepts it ---- *)
+  Definition good_reshare (now : Z) (f : dbstate) (g : group) (t : terms) (l : participant) : Prop :=
+    let nc := len (t_joining t) + len (t_remaining t) in
+    st_beacon f = t_beacon t /\ scheme_known (t_scheme t) = true
+    /\ forallb (joiner_ok (t_scheme t)) (t_joining t) = true
+    /\ now <= t_timeout t /\ t_threshold t <= nc /\ minimum_t nc <= t_threshold t
+    /\ t_epoch t = st_epoch f + 1 /\ st_epoch f < u32_max /\ t_epoch t <> 1
+    /\ is_empty (t_remaining t) = false
+    /\ contains (t_joining t) l = false /\ contains (t_leaving t) l = false /\ contains (t_remaining t) l = true
+    /\ st_threshold f <= len (t_remaining t)
+    /\ unix (t_genesis_time t) = unix (st_genesis_time f) /\ t_genesis_seed t = st_genesis_seed f
+    /\ contains_all (g_nodes g) (t_remaining t ++ t_leaving t) = true
+    /\ contains_all (t_remaining t ++ t_leaving t) (g_nodes g) = true.
+
+  Lemma ltb_false : forall a b, b <= a -> (a <? b) = false.
+  Proof. intros; apply Z.ltb_ge; assumption. Qed.
+
+  Lemma good_reshare_valid : forall now f g t l,
+    st_state f = Complete -> st_final_group f = Some g -> t_leader t = Some l ->
+    good_reshare now f g t l -> validate_proposal joiner_ok now f (Some t) = None.
+  Proof.
+    intros now f g t l S G L (H1 & H2 & H3 & H4 & H5 & H6 & H7 & H8 & H9 & H10 & H11 & H12 & H13 & H14 & H15 & H16 & H17 & H18).
+    unfold validate_proposal, validate_for_all_dkgs.
+    rewrite H1. assert (Q : bytes_eqb (t_beacon t) (t_beacon t) = true) by (apply bytes_eqb_eq; reflexivity).
+    rewrite Q, H2, H3. simpl.
+    rewrite (ltb_false _ _ H4), (ltb_false _ _ H5), (ltb_false _ _ H6).
+    assert (VE : validate_epoch f t = None).
+    { unfold validate_epoch. rewrite H7, S.
+      rewrite (ltb_false (st_epoch f + 1) (st_epoch f)) by lia.
+      assert (E1 : (st_epoch f + 1 =? st_epoch f) = false) by (apply Z.eqb_neq; lia). rewrite E1. simpl.
+      assert (E2 : u32_succ (st_epoch f) = st_epoch f + 1).
+      { unfold u32_succ. assert (E3 : (st_epoch f =? u32_max) = false) by (apply Z.eqb_neq; lia). rewrite E3; reflexivity. }
+      rewrite E2, Z.ltb_irrefl. reflexivity. }
+    rewrite VE. apply Z.eqb_neq in H9; rewrite H9.
+    unfold validate_reshare_terms. rewrite H10, L. simpl getp. rewrite H11, H12, H13. simpl.
+    rewrite (ltb_false _ _ H14). rewrite S. simpl.
+    unfold validate_reshare_for_remainers. rewrite H15, Z.eqb_refl, H16. simpl.
+    assert (Q2 : bytes_eqb (st_genesis_seed f) (st_genesis_seed f) = true) by (apply bytes_eqb_eq; reflexivity).
+    rewrite Q2, G, H17, H18. simpl. rewrite (ltb_false _ _ H14). reflexivity.
+  Qed.
+
+  (* the proposal packet is then accepted (state Proposed at the next epoch), provided the packet is
+     new, carries this beacon id, names its leader as sender, includes this node, and is signed *)
+  Lemma good_proposal_accepted : forall now s f g t l p md,
+    effective B s = f -> st_state f = Complete -> st_final_group f = Some g ->
+    gp_md p = Some md -> gp_body p = PProposal t -> t_leader t = Some l ->
+    4 <= len (md_sig md) -> mem_bytes (md_sig md) (seen s) = false -> md_beacon md = B ->
+    p_addr l = md_addr md -> good_reshare now f g t l ->
+    contains (t_joining t) me || contains (t_remaining t) me || contains (t_leaving t) me = true ->
+    verify_message p (terms_from_state (new_state_from f t Proposed (t_genesis_seed t))) = None ->
+    exists s', packet_step joiner_ok key_ok verify_message me B now s p = (s', OK)
+      /\ current s' = Some (new_state_from f t Proposed (t_genesis_seed t)) /\ finished s' = finished s.
+  Proof.
+    intros now s f g t l p md E S G Hmd Hb L Hlen Hseen Hbe Hl GR Hme Hv.
+    unfold packet_step. rewrite Hmd, (ltb_false _ _ Hlen), Hseen, Hb. unfold packet_apply.
+    rewrite Hbe. assert (Q : bytes_eqb B B = true) by (apply bytes_eqb_eq; reflexivity). rewrite Q. simpl negb. cbv iota.
+    rewrite Hb, E. simpl apply_packet. unfold do_proposed. rewrite S. simpl valid_change. simpl negb. cbv iota.
+    rewrite L, Hl. assert (Q2 : bytes_eqb (md_addr md) (md_addr md) = true) by (apply bytes_eqb_eq; reflexivity).
+    rewrite Q2. simpl negb. cbv iota.
+    rewrite (good_reshare_valid now f g t l S G L GR).
+    assert (Hme' : negb (contains (t_joining t) me) && negb (contains (t_remaining t) me) && negb (contains (t_leaving t) me) = false).
+    { destruct (contains (t_joining t) me), (contains (t_remaining t) me), (contains (t_leaving t) me); simpl in *; auto; discriminate. }
+    rewrite Hme', Hv.
+    match goal with |- context [if ?c then _ else _] => destruct c end; eexists; split; reflexivity || (split; reflexivity).
+  Qed.
+
   (* ---- retry: a node whose current state is terminal treats every later command/packet exactly
      as a node whose current state is the last completed one (or Fresh when there is none) ---- *)
   Definition rolled_back (s : store) : store := mkStore (finished s) (finished s) (seen s).
@@ -696,11 +770,16 @@ Section Proc2.
                        | Err _ => (fst r1 = s /\ fst r2 = rolled_back s) \/ fst r1 = fst r2
                        end.
   Proof.
-    intros now s b c. destruct c; unfold start_cmd; cbv zeta; rewrite ?save_rolled_back;
-      try (destruct (do_start_executing now me b); [rewrite save_rolled_back|]);
-      repeat match goal with
-             | |- context [match ?x with _ => _ end] => destruct x
-             end; simpl; auto.
+    intros now s b c. destruct c; unfold start_cmd; cbv zeta; rewrite ?save_rolled_back.
+    - destruct (do_proposing _ _ _ _ _); simpl; auto.
+    - destruct (migration_branch _ _); [simpl; auto|]. destruct (do_proposing _ _ _ _ _); simpl; auto.
+    - destruct (1 <? st_epoch b); [destruct f; simpl; auto|]; destruct (do_joined _ _ _ _); simpl; auto.
+    - destruct (do_accepted _ _ _); simpl; auto.
+    - destruct (do_rejected _ _ _); simpl; auto.
+    - destruct (do_start_executing _ _ _); [|simpl; auto]. rewrite save_rolled_back.
+      destruct (exec_setup _ _ _); simpl; auto.
+    - destruct (do_start_abort _); simpl; auto.
+    - simpl; auto.
   Qed.
 
   Lemma command_retry : forall now s c, inv s -> is_terminal (st_state (get_current B s)) = true ->
@@ -721,13 +800,6 @@ Section Proc2.
     destruct (is_empty _ && is_empty _); destruct (is_proposal_cmd _ && _); split; auto.
   Qed.
 End Proc2.
-
-Lemma bytes_eqb_eq : forall a b, bytes_eqb a b = true <-> a = b.
-Proof.
-  induction a as [|x a IH]; destruct b as [|y b]; simpl; split; intros H; try discriminate; auto.
-  - apply andb_prop in H; destruct H as [H1 H2]. apply Z.eqb_eq in H1; apply IH in H2; subst; auto.
-  - inversion H; subst. rewrite Z.eqb_refl. simpl. apply IH; auto.
-Qed.
 
 (* ---------- rejection rules of ValidateProposal (one lemma per rule) ---------- *)
 Section Reject.
@@ -882,3 +954,98 @@ Section Reject.
     rewrite Q; simpl. rewrite G. reflexivity.
   Qed.
 End Reject.
+
+(* ---------- whole histories ---------- *)
+Section Histories.
+  Variable joiner_ok : bytes -> participant -> bool.
+  Variable key_ok : bytes -> bool.
+  Variable verify_message : gpacket -> terms -> option err.
+  Variable me : participant.
+  Variable B : bytes.
+  Notation pstep := (step joiner_ok key_ok verify_message me B).
+
+  (* the stores after each event of a history *)
+  Fixpoint trace (s : store) (h : list (Z * event)) : list store :=
+    match h with
+    | [] => []
+    | e :: h' => let s' := fst (pstep s e) in s' :: trace s' h'
+    end.
+
+  (* R holds between every two consecutive stores *)
+  Fixpoint chain (R : store -> store -> Prop) (s : store) (l : list store) : Prop :=
+    match l with
+    | [] => True
+    | s' :: l' => R s s' /\ chain R s' l'
+    end.
+
+  Lemma chain_steps : forall (R : store -> store -> Prop),
+    (forall s e, inv s -> R s (fst (pstep s e))) ->
+    forall h s, inv s -> chain R s (trace s h).
+  Proof.
+    intros R HR. induction h as [|e h IH]; simpl; intros s I; auto.
+    split; [apply HR; assumption|]. apply IH. apply step_inv; assumption.
+  Qed.
+
+  (* a step-indexed variant: the relation may mention the event *)
+  Definition legal_edge (s s' : store) : Prop :=
+    let a := st_state (get_current B s) in
+    let b := st_state (get_current B s') in
+    a = b \/ valid_change a b = true
+    \/ (is_terminal a = true
+        /\ ((exists f, finished s = Some f /\ st_state f = Complete /\ valid_change Complete b = true)
+            \/ (finished s = None /\ valid_change Fresh b = true))).
+
+  Lemma step_legal_edge : forall s e, inv s -> legal_edge s (fst (pstep s e)).
+  Proof.
+    intros s e I. destruct (pstep s e) as [s' o] eqn:H. simpl.
+    destruct (step_legal _ _ _ _ _ _ _ _ _ I H) as [Q|Q]; unfold legal_edge; [left; auto|].
+    destruct e as [now ev]; simpl in Q. unfold base_of in Q.
+    assert (EFF : valid_change (st_state (effective B s)) (st_state (get_current B s')) = true ->
+                  legal_edge s s').
+    { intros V. unfold legal_edge. destruct (eff_cases B s) as [[_ E] | [T _]]; [rewrite E in V; auto|].
+      right; right; split; auto.
+      destruct (fallback_base B s I T) as [[f [F [E S]]] | [F E]]; rewrite E in V.
+      - left; exists f; rewrite S in V; auto.
+      - right; auto. }
+    destruct ev; [apply EFF; exact Q|apply EFF; exact Q|right; left; exact Q].
+  Qed.
+
+  Definition finished_edge (s s' : store) : Prop :=
+    finished s' = finished s
+    \/ (exists d, finished s' = Some d /\ current s' = Some d /\ st_state d = Complete
+          /\ st_final_group d <> None /\ st_key_share d <> None
+          /\ st_state (get_current B s) = Executing
+          /\ (forall f, finished s = Some f -> st_epoch f < st_epoch d)).
+
+  Lemma step_finished_edge : forall s e, inv s -> finished_edge s (fst (pstep s e)).
+  Proof.
+    intros s e I. destruct (pstep s e) as [s' o] eqn:H. simpl.
+    destruct (step_finished _ _ _ _ _ _ _ _ _ I H) as [Q|(g & sh & d & _ & _ & F & C & S & G & K & X & _ & L)]; [left; auto|].
+    right; exists d. repeat split; auto; congruence.
+  Qed.
+
+  Definition epoch_edge (s s' : store) : Prop :=
+    st_epoch (get_current B s) <= st_epoch (get_current B s')
+    \/ (is_terminal (st_state (get_current B s)) = true /\ st_epoch (effective B s) < st_epoch (get_current B s')).
+
+  Lemma step_epoch_edge : forall s e, inv s -> epoch_edge s (fst (pstep s e)).
+  Proof.
+    intros s e I. destruct (pstep s e) as [s' o] eqn:H. simpl. eapply step_epoch; eassumption.
+  Qed.
+
+  (* members: histories that never visit Left *)
+  Fixpoint never_left (s : store) (l : list store) : Prop :=
+    st_state (get_current B s) <> Left /\ match l with [] => True | s' :: l' => never_left s' l' end.
+
+  Definition member_edge (s s' : store) : Prop :=
+    tight s' /\ st_epoch (get_current B s) <= st_epoch (get_current B s').
+
+  Lemma members_chain : forall h s, inv s -> tight s -> never_left s (trace s h) -> chain member_edge s (trace s h).
+  Proof.
+    induction h as [|e h IH]; simpl; intros s I T NL; auto.
+    destruct NL as [N NL]. destruct (pstep s e) as [s' o] eqn:H. simpl in *.
+    destruct (step_tight _ _ _ _ _ _ _ _ _ I T N H) as [T' E].
+    split; [split; assumption|]. apply IH; auto.
+    pose proof (step_inv joiner_ok key_ok verify_message me B s e I) as I'. rewrite H in I'. exact I'.
+  Qed.
+End Histories.
